@@ -13,6 +13,7 @@
   subset (EngineError).
 """
 import ast
+import os
 import time
 import z3
 from fractions import Fraction
@@ -408,6 +409,7 @@ class Engine:
         self.inlined_seen = set()
         self.summaries_used = set()
         self.notes = []
+        self.rechecked = {}
         self._ufs = {}
         self._globals_cache = {}
 
@@ -540,6 +542,15 @@ class Engine:
         backend = 'z3'
         if r == z3.unknown and self.canary_expect is None:
             r, backend = self.second_opinion(s, f)
+        if r == z3.unsat and self.canary_expect is None and os.environ.get('VERIF_TIER_EFFECTIVE') == 'thorough':
+            # thorough tier: every discharged obligation is re-checked by an independent solver (cvc5 binary)
+            rr = self.recheck_cvc5(s)
+            self.rechecked[rr] = self.rechecked.get(rr, 0) + 1
+            if rr == 'sat':
+                r = z3.unknown
+                backend = 'z3 says unsat, cvc5 says sat'
+            elif rr == 'unsat':
+                backend = backend + '+cvc5'
         dt = time.time() - t0
         self.solver_time += dt
         model = None
@@ -568,6 +579,21 @@ class Engine:
                 any(name.startswith(e) for e in self.canary_expect):
             raise StopRun()
         return ob.ok
+
+    def recheck_cvc5(self, s):
+        import subprocess
+        import tempfile
+        try:
+            txt = s.to_smt2()
+            with tempfile.NamedTemporaryFile('w', suffix='.smt2', delete=False) as fh:
+                fh.write('(set-logic ALL)\n' + txt)
+                path = fh.name
+            p = subprocess.run(['/usr/bin/cvc5', '--tlimit=15000', path], capture_output=True, text=True, timeout=30)
+            os.unlink(path)
+            out = p.stdout.strip().split('\n')[0] if p.stdout else ''
+            return out if out in ('sat', 'unsat') else 'unknown'
+        except Exception:
+            return 'unknown'
 
     def second_opinion(self, s, f):
         """an `unknown` from the default z3 configuration goes to z3's nlsat tactic and then
